@@ -99,7 +99,11 @@ func allInputs() []input {
 	}
 	var i3 []byte
 	for k := 0; k < 40; k++ {
-		i3 = append(i3, vi(1, uint64(7000+k))...)
+		v := uint64(7000 + k)
+		if k%3 == 1 {
+			v = 0 // zeros at some positions: a bool scratch slice overwritten by a later result must be noticeable
+		}
+		i3 = append(i3, vi(1, v)...)
 	}
 	for k := 0; k < 5; k++ {
 		i3 = append(i3, ln(2, nested(uint64(500+k), k%2 == 0))...)
@@ -108,9 +112,9 @@ func allInputs() []input {
 	return []input{
 		{"i0:only-string", ln(3, []byte("s0")), true},
 		{"i1:one-of-each", cat(vi(1, 11), ln(2, nested(21, true)), ln(3, []byte("s1"))), true},
-		{"i2:three", cat(vi(1, 101), vi(1, 102), vi(1, 103), ln(2, nested(201, false)), ln(2, nil), ln(2, nested(203, true))), true},
+		{"i2:three", cat(vi(1, 0), vi(1, 102), vi(1, 103), ln(2, nested(201, false)), ln(2, nil), ln(2, nested(203, true))), true},
 		{"i3:forty-and-five", i3, true},
-		{"i4:packed-tag1-empty-nested", cat(ln(1, cat(refwire.AppendVarint(nil, 9), refwire.AppendVarint(nil, 300))), ln(2, nil)), true},
+		{"i4:packed-tag1-empty-nested", cat(ln(1, cat(refwire.AppendVarint(nil, 9), refwire.AppendVarint(nil, 0), refwire.AppendVarint(nil, 300))), ln(2, nil)), true},
 		{"i5:malformed-tail", cat(vi(1, 66), vi(1, 67), ln(2, nested(68, true)), []byte{0x1a, 0x7f, 0x01}), false},
 	}
 }
